@@ -19,6 +19,10 @@ class NodeListModel:
         self.items = list(items)
 
 
+class ClearGuard(Obj):
+    pass
+
+
 class SWorld(CWorld):
     construct_objects = True
 
@@ -31,6 +35,8 @@ class SWorld(CWorld):
         return body['file'].endswith(('NodeSorter.cpp', 'NodeSorter.hpp', 'NodeSortKey.hpp', 'NodeSortKey.cpp'))
 
     def destructor(self, o):
+        if isinstance(o, ClearGuard):
+            return lambda g: g.fields['vec'].items.clear()          # CollectionClearGuard: clears its collection when the scope ends
         return None
 
     def hook(self, m, c):
@@ -38,7 +44,10 @@ class SWorld(CWorld):
         n = c.get('n') or callee(c).split('::')[-1]
         cls = c.get('cls') or ''
         if k == 'Ctor' and 'CollectionClearGuard' in cls:
-            return 'GUARD'          # clears the caches when the sort is over: C06-R1 looks at that
+            v = m.ev(c['args'][0])
+            if not isinstance(v, Vec):
+                raise Unsupported('CollectionClearGuard on %r' % (v,))
+            return ClearGuard('guard', {'vec': v})
         if k == 'Call' and n in ('stable_sort', 'sort') and len(c['args']) == 3:
             unstable = n == 'sort'      # std::sort may leave equal elements in any order: modelled by the legal outcome that reverses them
             b, e, comp = (m.ev(x) for x in c['args'])
@@ -120,6 +129,7 @@ def run_rule(res, facts, tier):
     nvals = [nan, 1.0, 2.0]
     deep = tier == 'thorough'
     reported = 0
+    reported_reuse = {}
     n = 0
     kfields = {f['n'] for f in (facts.K.get(NS + 'NodeSorter') or {}).get('fields', [])}
     for nnodes in (3, 4) if deep else (3,):
@@ -153,6 +163,34 @@ def run_rule(res, facts, tier):
                     raise AnalysisBroken('NodeSorter::sort outside the interpreted subset on %s: %s' % (site, u))
                 want = spec_sort(nodes, keys, vals)
                 n += 1
+                if got == want and ci % (step * 5) == 0:
+                    # the sorter is reused by the next sort of the transformation: same object, same keys, other values (rotated), same number of nodes
+                    vals2 = [v[1:] + v[:1] for v in vals]
+                    if vals2 != vals:
+                        w.values = vals2
+                        lst2 = NodeListModel(nodes)
+                        w.calls = 0
+                        try:
+                            m2 = OMachine(w, {}, sorter)
+                            m2.fuel = 60000
+                            m2.run_body(sort, ['ECTX', lst2], sorter)
+                            got2 = list(lst2.items)
+                        except Fault as f:
+                            got2 = 'FAULT: %s' % f
+                        except Unsupported as u:
+                            raise AnalysisBroken('NodeSorter::sort (second sort on the same sorter) outside the interpreted subset on %s: %s' % (site, u))
+                        want2 = spec_sort(nodes, keys, vals2)
+                        n += 1
+                        if got2 != want2:
+                            reused = reported_reuse.get('n', 0)
+                            reported_reuse['n'] = reused + 1
+                            if reused < 2:
+                                r.violation('second sort with the same sorter', 'after sorting by values %s the same sorter sorts values %s (%s) into %s, XSLT 1.0 10 requires %s: something of the '
+                                            'first sort is still in the sorter' % (vals, vals2, site.split(',')[0], got2, want2), common.file_line(sort))
+                            else:
+                                r.instances += 1
+                        else:
+                            r.instances += 1
                 if got == want:
                     r.instances += 1
                     continue
